@@ -343,7 +343,10 @@ class World:
             selfmode = rng.chance(1, 2)
         if denymode is None:
             denymode = rng.chance(1, 2)
-        self.self = [self.my4, self.my6] if selfmode else None
+        # second handled address of each family (an ND-NS may be sent to one address and solicit another)
+        self.my4b = rng.choice([ip4('10.0.0.2'), rng.bytes(4)])
+        self.my6b = rng.choice([ip6('2001:db8::2'), rng.bytes(16)])
+        self.self = [self.my4, self.my6, self.my4b, self.my6b] if selfmode else None
         self.deny = [self.bad4, self.bad6] if denymode else None
         self.key = key if key is not None else rng.choice([(0, 0), (0, 0), (rng.next(), rng.next())])
         self.logger = logger
@@ -396,7 +399,27 @@ def dst_macs(rng, w):
     return [('own', w.mac), ('bcast', BCAST), ('allnodes', bytes.fromhex('333300000001')), ('mc4', mc4), ('sn6', sn6),
             ('near-own', near_miss(rng, w.mac)), ('near-mc4', near_miss(rng, mc4)), ('near-sn6', near_miss(rng, sn6)),
             ('near-allnodes', near_miss(rng, bytes.fromhex('333300000001'))), ('random', rng.bytes(6)),
-            ('mc4-other', bytes([1, 0, 0x5e, w.other4[1] & 0x7f, w.other4[2], w.other4[3]]))]
+            ('mc4-other', bytes([1, 0, 0x5e, w.other4[1] & 0x7f, w.other4[2], w.other4[3]])),
+            # cross-family near misses: the IPv4 mapping applied to an IPv6 self address and vice versa
+            ('xfam-mc4', bytes([1, 0, 0x5e, w.my6[13] & 0x7f, w.my6[14], w.my6[15]])),
+            ('xfam-sn6', bytes([0x33, 0x33, 0xff]) + w.my4[1:4]),
+            ('mc4-second', bytes([1, 0, 0x5e, w.my4b[1] & 0x7f, w.my4b[2], w.my4b[3]])),
+            ('sn6-second', bytes([0x33, 0x33, 0xff]) + w.my6b[13:16])]
+
+
+def csum_stress(rng):
+    """echo bodies (identifier, sequence, data) that stress the ones-complement arithmetic: all-ones words (multiple
+    carries), odd lengths, large random payloads up to the MTU"""
+    k = rng.below(8)
+    if k == 0:
+        return b'\xff' * rng.choice([4, 6, 7, 8, 64, 65, 1000, 1472])
+    if k == 1:
+        return b'\xff\xff\xff\xff' + rng.choice([b'\x00\x01', b'\x00\x02', b'\x01', b'\xff\xfe', b''])
+    if k == 2:
+        return rng.bytes(rng.choice([1000, 1399, 1464, 1465, 1471, 1472]))
+    if k == 3:
+        return (b'\xff\xfe' * 300)[:rng.choice([8, 9, 600, 599])]
+    return rng.bytes(rng.choice([0, 4, 8, 13, 56, rng.below(100)]))
 
 
 def gen_l4(rng, w, v6, proto):
@@ -431,18 +454,18 @@ def gen_l4(rng, w, v6, proto):
     if proto == 1:
         ty = rng.choice([8, 8, 8, 0, 3, 13, rng.below(256)])
         code = rng.choice([0, 0, 0, 1, rng.below(256)])
-        return icmp(ty, code, rng.bytes(rng.choice([0, 4, 8, 13, 56, rng.below(100)])))
+        return icmp(ty, code, csum_stress(rng))
     if proto == 58:
         ty = rng.choice([128, 128, 135, 135, 129, 136, 133, rng.below(256)])
         code = rng.choice([0, 0, 0, 1, rng.below(256)])
         if ty == 135:
-            tgt = rng.choice([w.my6, w.my6, w.other6, rng.bytes(16)])
+            tgt = rng.choice([w.my6, w.my6, w.my6b, w.other6, rng.bytes(16)])
             opt = rng.choice([b'', bytes([1, 1]) + w.cl_mac, bytes([1, 32]) + rng.bytes(6), bytes([1, 0]) + rng.bytes(6), rng.bytes(rng.below(20))])
             rest = bytes(4) + tgt + opt
             if rng.chance(1, 6):
                 rest = rest[:rng.below(len(rest) + 1)]
             return icmp6(ty, code, rest, s, d)
-        return icmp6(ty, code, rng.bytes(rng.choice([0, 4, 8, 13, 56, rng.below(100)])), s, d)
+        return icmp6(ty, code, csum_stress(rng), s, d)
     return rng.bytes(rng.below(40))
 
 
@@ -476,11 +499,11 @@ def gen_frame(rng, w):
     tags.append('proto:%d' % proto)
     l4 = gen_l4(rng, w, v6, proto)
     src = rng.choice([None, None, None, None, w.bad6 if v6 else w.bad4])
-    dst = rng.choice([None, None, None, None, w.other6 if v6 else w.other4])
+    dst = rng.choice([None, None, None, None, w.other6 if v6 else w.other4, w.my6b if v6 else w.my4b])
     if src is not None:
         tags.append('src-denied')
     if dst is not None:
-        tags.append('dst-foreign')
+        tags.append('dst-foreign' if dst in (w.other4, w.other6) else 'dst-second-self')
     if v6:
         plen = None
         if rng.chance(1, 10):
